@@ -21,6 +21,7 @@ pub mod c17;
 pub mod c18;
 pub mod c19;
 pub mod c20;
+pub mod e2e;
 pub mod fmt;
 pub mod nav;
 
